@@ -254,4 +254,63 @@ def rule_e(ctx):
     return r
 
 
-RULES = [rule_a, rule_b, rule_c, rule_d, rule_e]
+
+def rule_f(ctx):
+    r = RuleResult("C10-f", "unifying the trailing combinators of two selectors: a component popped off one selector's list is only ever pushed back onto that same list "
+                   "(merge_final_combinators never moves a compound or combinator of the target into the extender, or the reverse)")
+    prog = ctx.prog()
+    b = prog.one("selector::extend::functions::merge_final_combinators")
+    pops = {}
+    for c in b.calls():
+        if an.tail2(c.callee) in ("VecDeque::pop_back", "VecDeque::pop_front"):
+            a0 = an.trace_operand(b, c.args[0])
+            if a0.root[0] == "arg" and not a0.proj:
+                pops[c.bb] = a0.root[1]
+
+    def origins(op, depth=0, seen=None):
+        """Set of list parameters whose pop produced (part of) this operand."""
+        seen = seen if seen is not None else set()
+        out = set()
+        if op.place is None or depth > 12:
+            return out
+        l = op.place.local
+        if l in seen:
+            return out
+        seen.add(l)
+        for bb, i, d in b.defs_of(l):
+            if isinstance(d, dict):
+                if d["k"] == "use" and "p" in d["op"]:
+                    out |= origins(Operand({"k": "copy", "p": {"l": d["op"]["p"]["l"]}}), depth + 1, seen)
+                elif d["k"] == "agg":
+                    for o in d.get("ops", []):
+                        if "p" in o:
+                            out |= origins(Operand({"k": "copy", "p": {"l": o["p"]["l"]}}), depth + 1, seen)
+                elif d["k"] == "ref":
+                    out |= origins(Operand({"k": "copy", "p": {"l": d["p"]["l"]}}), depth + 1, seen)
+            else:
+                if d.bb in pops:
+                    out.add(pops[d.bb])
+                elif an.tail2(d.callee) in ("Option::unwrap", "Clone::clone", "Option::expect", "Option::unwrap_or_default", "Into::into", "From::from") and d.args:
+                    out |= origins(d.args[0], depth + 1, seen)
+        return out
+
+    n = 0
+    for c in b.calls():
+        if an.tail2(c.callee) not in ("VecDeque::push_back", "VecDeque::push_front") or len(c.args) != 2:
+            continue
+        a0 = an.trace_operand(b, c.args[0])
+        if a0.root[0] != "arg" or a0.proj or a0.root[1] not in (1, 2):
+            continue
+        n += 1
+        src = origins(c.args[1])
+        key = "merge_final_combinators|push-back-onto-list-%d" % a0.root[1]
+        if src <= {a0.root[1]}:
+            r.ok(key, popped_from=sorted(src))
+        else:
+            r.violate(key, "merge_final_combinators pushes onto selector list #%d a component that was popped from list #%d: the target's trailing compound/combinator ends up "
+                      "in the extender's ancestors (or the reverse), so the generated selector matches different elements than the extender" % (a0.root[1], sorted(src - {a0.root[1]})[0]), c.loc())
+    r.floor("push-backs onto the two selector lists", n, 4)
+    return r
+
+
+RULES = [rule_a, rule_b, rule_c, rule_d, rule_e, rule_f]
